@@ -31,11 +31,13 @@
 (*                reading would forbid harmless coalescing.                *)
 (*  (b) "extracting or normalizing a manifest preserves each file's byte   *)
 (*      sequence and its unescaped name"                                   *)
-(*          Out: the paths of the produced manifest, read with the FORMAT's*)
-(*               semantics, are the relocated paths of the source subtree  *)
-(*               (rules of the doc comment of manifest.Extract), each with *)
-(*               the source file's bytes.  Token layout, block order and   *)
-(*               being in normalised form are not judged.                  *)
+(*          Out: the produced manifest, read with the FORMAT's semantics,  *)
+(*               holds exactly the selected files, each with the source    *)
+(*               file's bytes and its name (path below a directory source  *)
+(*               kept; a file source keeps its base name or takes the name *)
+(*               asked for).  Token layout, block order, being in          *)
+(*               normalised form, and WHERE the files are put (Extract's   *)
+(*               relocation convention: drift-only) are not judged.        *)
 (*  (c) "the portable data hash is the MD5 and length of the manifest text *)
 (*      with every locator reduced to hash+size"                           *)
 (*          Pdh: got = want, where want is MD5+length (computed by the     *)
@@ -45,13 +47,17 @@
 (*      manifests are rejected with an error rather than partially applied"*)
 (*          Load: never "panic"/"hang"; for a single-token mutation that   *)
 (*          makes the text malformed (mut # "none") the codecs that have   *)
-(*          an error return must answer "error" for the mutation kinds in  *)
-(*          MustReject.  Arbitrary byte strings are outside this technique.*)
+(*          an error return must report an error - at load, or when the    *)
+(*          files are read - for the mutation kinds in MustReject.         *)
+(*          Arbitrary byte strings are outside this technique.             *)
 (* DRIFT-ONLY clauses (no sentence of the statement behind them; a trace    *)
 (* failing only these is reported as DRIFT, exit code stays 0):            *)
 (*   OutHintsOK  Extract/normalisation keep the +A/+R/+K hints the blocks  *)
 (*               had in the source (Manifest!HintsPreserved)               *)
 (*   DigestsOK   Collection.SizedDigests = Manifest!StrippedBlocks(m)      *)
+(*   OutConventionOK  WHERE Extract puts things (trailing-slash rule, a    *)
+(*               file source renamed onto rel): the doc comment of         *)
+(*               manifest.Extract, not the statement                       *)
 (* Every other clause maps to the sentence quoted next to it above:        *)
 (*   Load (ok for valid, file list = Paths(m))      (a) first sentence     *)
 (*   File (bytes of whole file and of sub-ranges)   (a) first sentence     *)
@@ -102,15 +108,25 @@ CInit(mm, c, mu) == /\ m = mm /\ codec = c /\ mut = mu /\ loaded = "no"
 (* Every clause is a state predicate XxxOK (what may be reported in the    *)
 (* current state) and an action Xxx = XxxOK /\ state update, so that the    *)
 (* judge can tell an event that is not allowed without getting stuck.      *)
-LoadOK(kind, paths) ==
+(* reads: for a mutated text that loaded, the outcome of reading every file *)
+(* ([kind, n]): a loader may report a bad token when the file is read.     *)
+(* A text that is not valid UTF-8 is outside the grammar ("A manifest is   *)
+(* utf-8 encoded text"): the generator makes some on purpose; for those    *)
+(* everything but a panic or hang is accepted (loaded = "any").            *)
+LoadOK(kind, paths, reads) ==
     /\ loaded = "no"
-    /\ kind \in {"ok", "error"}                         \* (d) never panic, never hang
-    /\ mut = "none" => kind = "ok"                      \* (a)
-    /\ <<codec, mut>> \in MustReject => kind = "error"  \* (d)
-    /\ (kind = "ok" /\ mut = "none") =>                 \* (a) the files the codec found: exactly Paths(m)
+    /\ kind \in {"ok", "error"}                                          \* (d) never panic, never hang
+    /\ \A i \in DOMAIN reads : reads[i].kind \in {"ok", "error"}         \* (d)
+    /\ (mut = "none" /\ Utf8Text(m)) => kind = "ok"                       \* (a)
+    /\ <<codec, mut>> \in MustReject =>                                  \* (d) rejected: at load, or when read
+          kind = "error" \/ \E i \in DOMAIN reads : reads[i].kind = "error"
+    /\ (kind = "ok" /\ mut = "none" /\ Utf8Text(m)) =>                    \* (a) the files the codec found: exactly Paths(m)
           /\ Range(paths) = Paths(m)
           /\ Len(paths) = Cardinality(Paths(m))
-Load(kind, paths) == LoadOK(kind, paths) /\ loaded' = kind /\ UNCHANGED <<m, codec, mut>>
+Load(kind, paths, reads) ==
+    /\ LoadOK(kind, paths, reads)
+    /\ loaded' = IF mut = "none" /\ ~Utf8Text(m) /\ kind = "ok" THEN "any" ELSE kind
+    /\ UNCHANGED <<m, codec, mut>>
 
 (* One file, observed in several ways; each observation is                 *)
 (* [start, n, segs]: n = -1 the whole file, otherwise the n bytes at file  *)
@@ -120,10 +136,11 @@ ObsOK(want, o) ==
     ELSE /\ o.start >= 0 /\ o.start + o.n <= Len(want)
          /\ Flatten(o.segs) = SubSeq(want, o.start + 1, o.start + o.n)
 FileOK(path, kind, obs) ==
-    /\ loaded = "ok" /\ mut = "none"
-    /\ kind = "ok"
-    /\ path \in Paths(m)
-    /\ LET want == Bytes(m, path) IN \A i \in DOMAIN obs : ObsOK(want, obs[i])
+    IF loaded = "any" THEN kind \in {"ok", "error"}
+    ELSE /\ loaded = "ok" /\ mut = "none"
+         /\ kind = "ok"
+         /\ path \in Paths(m)
+         /\ LET want == Bytes(m, path) IN \A i \in DOMAIN obs : ObsOK(want, obs[i])
 File(path, kind, obs) == FileOK(path, kind, obs) /\ UNCHANGED cvars
 
 (* Where manifest.Extract(src, relocate) puts things (doc comment of       *)
@@ -138,22 +155,41 @@ ExtractMap(src, rel, slash) ==
     ELSE {<<p, rel \o SubSeq(p, Len(src) + 1, Len(p))>> :
              p \in {q \in Paths(m) : IsPrefix(src \o <<SL>>, q)}}
 
+(* STRICT part of (b): exactly the selected files come out, each with its   *)
+(* bytes, and with its name: below a directory source the path relative to *)
+(* the source is kept; a file source keeps its base name or gets exactly   *)
+(* the name the caller asked for (rel).  WHERE they are put (the trailing  *)
+(* slash rule etc. of Extract's doc comment) is the drift-only clause      *)
+(* OutConventionOK.                                                        *)
+Selected(src) == IF src \in Paths(m) THEN {src} ELSE {q \in Paths(m) : IsPrefix(src \o <<SL>>, q)}
+IsSuffix(a, b) == Len(a) <= Len(b) /\ SubSeq(b, Len(b) - Len(a) + 1, Len(b)) = a
+OutMatch(p, q, src, rel, out) ==
+    /\ Bytes(out, q) = Bytes(m, p)
+    /\ IF src \in Paths(m) THEN Base(q) = Base(p) \/ q = rel
+       ELSE IsSuffix(SubSeq(p, Len(src) + 1, Len(p)), q)
 OutOK(src, rel, slash, kind, out) ==
-    /\ loaded = "ok" /\ mut = "none"
-    /\ kind = "ok"
-    /\ LET em == ExtractMap(src, rel, slash)
-       IN /\ Paths(out) = {x[2] : x \in em}
-          /\ \A x \in em : Bytes(out, x[2]) = Bytes(m, x[1])
+    IF loaded = "any" THEN kind \in {"ok", "error", "unparseable"}
+    ELSE /\ loaded = "ok" /\ mut = "none"
+         /\ kind = "ok"
+         /\ LET sel == Selected(src)
+            IN /\ Cardinality(Paths(out)) = Cardinality(sel)
+               /\ \A p \in sel : \E q \in Paths(out) : OutMatch(p, q, src, rel, out)
+               /\ \A q \in Paths(out) : \E p \in sel : OutMatch(p, q, src, rel, out)
+\* DRIFT-ONLY: the relocation convention documented at manifest.Extract
+OutConventionOK(src, rel, slash, out) ==
+    loaded = "any" \/ LET em == ExtractMap(src, rel, slash)
+                      IN /\ Paths(out) = {x[2] : x \in em}
+                         /\ \A x \in em : Bytes(out, x[2]) = Bytes(m, x[1])
 \* DRIFT-ONLY (no sentence of the statement): the produced locators still carry hints they had in m
-OutHintsOK(out) == HintsPreserved(m, out)
+OutHintsOK(out) == loaded = "any" \/ HintsPreserved(m, out)
 Out(src, rel, slash, kind, out) == OutOK(src, rel, slash, kind, out) /\ UNCHANGED cvars
 
-PdhOK(got, want) == mut = "none" /\ got = want                           \* (c) PortableDataHash
+PdhOK(got, want) == loaded = "any" \/ (mut = "none" /\ got = want)       \* (c) PortableDataHash
 \* DRIFT-ONLY (the statement speaks of the portable data hash only): SizedDigests lists the blocks, in order,
 \* each reduced to hash+size
-DigestsOK(dkind, blocks) == dkind = "ok" /\ blocks = StrippedBlocks(m)
+DigestsOK(dkind, blocks) == loaded = "any" \/ (dkind = "ok" /\ blocks = StrippedBlocks(m))
 Pdh(got, want) == PdhOK(got, want) /\ UNCHANGED cvars
 
 TypeOK == /\ codec \in Codecs \cup {"none"}
-          /\ loaded \in {"no", "ok", "error"}
+          /\ loaded \in {"no", "ok", "error", "any"}
 =============================================================================
